@@ -134,6 +134,10 @@ func checkC01(c C01Case) Outcome {
 			out.ExcludedBy = "D21"
 			return out
 		}
+		if openFinding("D30") && hasLabel(c.Lab, "flag-s") && inD30Class(ref, r.Stdout) {
+			out.ExcludedBy = "D30"
+			return out
+		}
 		if openFinding("D20") && !hasLabel(c.Lab, "flag-i") && inD20Class(ref, r.Stdout) {
 			out.ExcludedBy = "D20"
 			return out
